@@ -174,6 +174,41 @@ pub fn spawn_prometheus_endpoint(
                     }
                 });
 
+                #[cfg(aquatic_verif)]
+                let exporter = async move {
+                    if crate::verif::probe("common/prometheus/start") {
+                        return Ok(());
+                    }
+
+                    let mut exporter = Box::pin(exporter);
+                    let mut ticker = Box::pin(async {
+                        let mut interval = ::tokio::time::interval(Duration::from_millis(100));
+
+                        loop {
+                            interval.tick().await;
+
+                            if crate::verif::probe("common/prometheus/loop") {
+                                break;
+                            }
+                        }
+                    });
+
+                    ::std::future::poll_fn(|cx| {
+                        use ::std::future::Future;
+                        use ::std::task::Poll;
+
+                        if let Poll::Ready(result) = exporter.as_mut().poll(cx) {
+                            return Poll::Ready(result);
+                        }
+                        if let Poll::Ready(()) = ticker.as_mut().poll(cx) {
+                            return Poll::Ready(Ok(()));
+                        }
+
+                        Poll::Pending
+                    })
+                    .await
+                };
+
                 exporter
                     .await
                     .map_err(|err| anyhow::anyhow!("run prometheus exporter: :{:#?}", err))
